@@ -1,6 +1,7 @@
 import SluProofs.Lemmas.Solve
 import SluProofs.Lemmas.SolveT
 import SluProofs.Lemmas.MyBlas2
+import SluProofs.Lemmas.ColBmod
 import SluProofs.Props.C02
 import SluProofs.Props.C04
 /-
@@ -454,3 +455,335 @@ example : trsvLN exF exB ≠ exB := by decide +kernel
 example := spTrsv_notrans_eq_mirrored false exF exB (by decide +kernel) exF_blocks
 
 end Slu.MyBlas2
+
+/-! ## `[sdcz]column_bmod` (non-vendor build): the caller of the mirrored kernels
+
+`Slu.ColBmod.colBmod` (Slu/Model/ColBmod.lean) mirrors SRC/[sdcz]column_bmod.c statement by statement
+(family `colbmod`: direct calls, whole buffers compared bit for bit).  The theorems below are its
+exact-arithmetic meaning, for every segment size (the three hand-written cases 1, 2, 3 and the
+`lsolve` + `matvec` case), every leading dimension, every `fpanelc`. -/
+namespace Slu.ColBmod
+open Slu Finset Slu.Kernels Slu.MyBlas2
+
+variable {K : Type} [Field K] [Inhabited K]
+
+/-- the integers of a segment are consistent (`nsupc = no_zeros + segsze`, `segsze ≥ 1`, the loop over
+the rows below runs `nrow` times) as soon as the representative lies in the panel and after the first
+nonzero, and the supernode has at least `krep - fsupc + 1` rows -/
+theorem segGeom_arith (fpanelc : Nat) (xsup supno xlsub xlusup repfnz : Array Nat) (krep : Nat)
+    (h1 : xsup[supno[krep]!]! ≤ krep) (h2 : fpanelc ≤ krep) (h3 : repfnz[krep]! ≤ krep)
+    (h4 : xsup[supno[krep]!]! ≤ repfnz[krep]!)
+    (h5 : krep - xsup[supno[krep]!]! + 1 ≤ xlsub[xsup[supno[krep]!]! + 1]! - xlsub[xsup[supno[krep]!]!]!) :
+    (segGeom fpanelc xsup supno xlsub xlusup repfnz krep).noZeros + (segGeom fpanelc xsup supno xlsub xlusup repfnz krep).segsze =
+      (segGeom fpanelc xsup supno xlsub xlusup repfnz krep).nsupc ∧
+    1 ≤ (segGeom fpanelc xsup supno xlsub xlusup repfnz krep).segsze ∧
+    (segGeom fpanelc xsup supno xlsub xlusup repfnz krep).cnt = (segGeom fpanelc xsup supno xlsub xlusup repfnz krep).nrow := by
+  unfold segGeom
+  simp only
+  omega
+
+/-- **C01 (one U-segment of `column_bmod`, all four size cases).**  `krep` is the representative of a
+supernode other than `jcol`'s; `g` the integers the routine derives (`segGeom`); `base` the address of
+the diagonal cell (kfnz, kfnz) of the supernode's block; `row t` the subscript of the `t`-th row from
+`kfnz` on.  Hypotheses (`SegOK`): `nsupc = no_zeros + segsze`, `segsze ≥ 1`, these rows are distinct and
+inside `dense`; for `segsze ≥ 4` `tempv` has `segsze + nrow` zero cells.  After the iteration, with
+`u = fwdSub` of the UNIT lower triangular diagonal block rows `kfnz..krep` applied to the gathered
+`dense`: (i) the segment rows of `dense` hold `u`; (ii) each row below holds
+`dense[row] − Σ_r L(row, r)·u_r`; (iii) every other cell of `dense` is unchanged; `tempv` is back to what
+it was (zero); `lusup`, `xlusup` are untouched. -/
+theorem colBmod_segment_spec (cplx segOps : Bool) (jcol fpanelc : Nat) (xsup supno lsub xlsub repfnz : Array Nat)
+    (krep : Nat) (st : SnodeSt K) (g : Seg) (hg : g = segGeom fpanelc xsup supno xlsub st.xlusup repfnz krep)
+    (hne : supno[jcol]! ≠ supno[krep]!) (ok : SegOK lsub g st.dense)
+    (htv : 4 ≤ g.segsze → g.segsze + g.nrow ≤ st.tempv.size)
+    (htz : 4 ≤ g.segsze → ∀ i, i < g.segsze + g.nrow → st.tempv[i]! = 0) :
+    let base := g.luptr + (g.nsupr * g.noZeros + g.noZeros)
+    let row := fun t => lsub[g.lptr + g.noZeros + t]!
+    let u := fwdSub (fun i r => st.lusup[base + (r * g.nsupr + i)]!) (fun _ => 1) (fun t => st.dense[row t]!) g.segsze
+    let o := colSegment cplx segOps jcol fpanelc xsup supno lsub xlsub repfnz krep st
+    o.dense.size = st.dense.size ∧
+    (∀ s, s < g.segsze → o.dense[row s]! = u.getD s 0) ∧
+    (∀ i, i < g.nrow → o.dense[row (g.segsze + i)]! =
+      st.dense[row (g.segsze + i)]! - ∑ q ∈ range g.segsze, st.lusup[base + (q * g.nsupr + (g.segsze + i))]! * u.getD q 0) ∧
+    (∀ p, (∀ t, t < g.segsze + g.nrow → row t ≠ p) → o.dense[p]! = st.dense[p]!) ∧
+    o.tempv.size = st.tempv.size ∧ (∀ p : Nat, o.tempv[p]! = st.tempv[p]!) ∧
+    o.lusup = st.lusup ∧ o.xlusup = st.xlusup := by
+  intro base row u o
+  have hz : ∀ s, s < g.segsze → (fun t => u.getD t 0) s = st.dense[lsub[g.lptr + g.noZeros + s]!]! -
+      ∑ q ∈ range s, (fun t => u.getD t 0) q * st.lusup[g.luptr + (g.nsupr * g.noZeros + g.noZeros) + (q * g.nsupr + s)]! := by
+    intro s hs
+    show u.getD s 0 = _
+    rw [fwd_rec _ _ _ g.segsze s hs, div_one]
+    congr 1
+    exact Finset.sum_congr rfl (fun j _ => mul_comm _ _)
+  obtain ⟨⟨p1, p2, p3, p4⟩, t1, t2⟩ := segUpdate_spec' cplx lsub g st.lusup st.dense st.tempv (fun t => u.getD t 0) ok htv htz hz
+  have hd : o.dense = (segUpdate cplx lsub g st.lusup st.dense st.tempv).1 := by
+    show (colSegment cplx segOps jcol fpanelc xsup supno lsub xlsub repfnz krep st).dense = _
+    unfold colSegment; rw [if_pos hne, ← hg]
+  have ht : o.tempv = (segUpdate cplx lsub g st.lusup st.dense st.tempv).2 := by
+    show (colSegment cplx segOps jcol fpanelc xsup supno lsub xlsub repfnz krep st).tempv = _
+    unfold colSegment; rw [if_pos hne, ← hg]
+  have hl : o.lusup = st.lusup := by
+    show (colSegment cplx segOps jcol fpanelc xsup supno lsub xlsub repfnz krep st).lusup = _
+    unfold colSegment; rw [if_pos hne]
+  have hx : o.xlusup = st.xlusup := by
+    show (colSegment cplx segOps jcol fpanelc xsup supno lsub xlsub repfnz krep st).xlusup = _
+    unfold colSegment; rw [if_pos hne]
+  rw [hd, ht]
+  refine ⟨p1, p2, fun i hi => ?_, p4, t1, t2, hl, hx⟩
+  rw [p3 i hi]
+  congr 1
+  exact Finset.sum_congr rfl (fun j _ => mul_comm _ _)
+
+/-- a listed representative of `jcol`'s OWN supernode is skipped (`jsupno == ksupno`) -/
+theorem colBmod_segment_own (cplx segOps : Bool) (jcol fpanelc : Nat) (xsup supno lsub xlsub repfnz : Array Nat)
+    (krep : Nat) (st : SnodeSt K) (he : supno[jcol]! = supno[krep]!) :
+    colSegment cplx segOps jcol fpanelc xsup supno lsub xlsub repfnz krep st = st := by
+  unfold colSegment
+  rw [if_neg (by simpa using he)]
+
+/-- **C01 (`column_bmod` as a whole: the segment loop, then the column's own supernode).**
+`S k` is the state after `k` iterations of the segment loop (`segsUpTo`; `S 0 = st`).  Hypotheses:
+for every listed representative of another supernode the hypotheses of `colBmod_segment_spec`
+(`SegHyp`, stated on the INITIAL state: they involve `xlusup`, the size of `dense` and the zero prefix
+of `tempv` only, none of which an iteration changes); the panel does not start inside `jcol`'s own
+supernode (`fpanelc ≤ fsupc`: that restriction is what makes this `_partial`, see `colBmod_spec_goal`
+below); and for the
+supernode of `jcol` those of `snodeBmod_spec`.  Then
+(a) iteration `k` performs `SegStep` — the conclusion of `colBmod_segment_spec` for `segrep[nseg-1-k]`
+    — from `S k` to `S (k+1)`: the supernodes update `dense` one after the other in the listed order;
+(b) with `D` the `dense` left by the loop, the routine's final state is that of `snodeBmod_spec` for
+    `D`: column `jcol` of `lusup` holds the forward substitution with the supernode's diagonal block on
+    top and `D[row] − Σ_r L(row,r)·u_r` below, nothing else in `lusup` changed, `dense` is zero on the
+    supernode's rows and `D` elsewhere, `tempv` as before (zero), `xlusup[jcol+1]` set. -/
+/- colBmod_spec_goal (the full statement this file aims at; item (1) is PROVED further down as
+   `colBmod_spec` (via `colTail_spec'`), item (2) is NOT proved):
+   (1) the same conclusion WITHOUT `hp : fpanelc ≤ fsupc`: when the panel starts inside `jcol`'s own
+       supernode (`d_fsupc = fpanelc - fsupc > 0`) the in-supernode update uses the columns
+       `fpanelc..jcol-1` only (`luptr = xlusup[fpanelc] + d_fsupc`, `ufirst = xlusup[jcol] + d_fsupc`,
+       `nrow = nsupr - d_fsupc - nsupc`); `colTail` mirrors it and family `colbmod` compares it bit for
+       bit (tag tail=partial), but `snodeBmod_spec'` has not been generalised to the offset;
+   (2) `dense` after the loop, read on the non-pivot rows, and the parked U-segments equal
+       `LU.elimBlocks blocks st.dense` for `blocks` = the listed supernodes' columns in the listed order
+       (given `DepRespecting`): per segment this is `colBmod_segment_is_supernodal_step`; the fold is not
+       done because `column_bmod` keeps `u_t` in `dense` at the pivot rows (until `copy_to_ucol`) whereas
+       `snodeBlock` zeroes them, so the invariant must carry "later blocks are zero on earlier pivot rows". -/
+theorem colBmod_spec_partial (cplx segOps : Bool) (jcol nseg fpanelc : Nat) (segrep repfnz xsup supno lsub xlsub : Array Nat)
+    (st : SnodeSt K) (S : Nat → SnodeSt K)
+    (hS : S = segsUpTo cplx segOps jcol nseg fpanelc segrep repfnz xsup supno lsub xlsub st)
+    (H : ∀ k, k < nseg → SegHyp jcol fpanelc xsup supno lsub xlsub repfnz segrep[nseg - 1 - k]! st)
+    (fsupc istart nsupr ufirst luptr nsupc : Nat) (e0 : fsupc = xsup[supno[jcol]!]!) (hp : fpanelc ≤ fsupc)
+    (e1 : istart = xlsub[fsupc]!) (e2 : nsupr = xlsub[fsupc + 1]! - istart)
+    (e3 : ufirst = st.xlusup[jcol]!) (e4 : luptr = st.xlusup[fsupc]!) (e5 : nsupc = jcol - fsupc)
+    (hle : fsupc ≤ jcol)
+    (hinj : ∀ t u, t < nsupr → u < nsupr → lsub[istart + t]! = lsub[istart + u]! → t = u)
+    (hrow : ∀ t, t < nsupr → lsub[istart + t]! < st.dense.size)
+    (hcol : ufirst + nsupr ≤ st.lusup.size) (hwid : nsupc ≤ nsupr)
+    (hbefore : luptr + nsupc * nsupr ≤ ufirst)
+    (htv : nsupr - nsupc ≤ st.tempv.size) (htz : ∀ i, i < nsupr - nsupc → st.tempv[i]! = 0) :
+    S 0 = st ∧
+    (∀ k, k < nseg → SegStep jcol fpanelc xsup supno lsub xlsub repfnz segrep[nseg - 1 - k]! (S k) (S (k + 1))) ∧
+    (S nseg).dense.size = st.dense.size ∧
+    (let D := (S nseg).dense
+     let u := fwdSub (fun i r => st.lusup[luptr + (r * nsupr + i)]!) (fun _ => 1) (fun t => D[lsub[istart + t]!]!) nsupc
+     let o := colBmod cplx segOps jcol nseg fpanelc segrep repfnz xsup supno lsub xlsub st
+     o.lusup.size = st.lusup.size ∧
+     (∀ t, t < nsupc → o.lusup[ufirst + t]! = u.getD t 0) ∧
+     (∀ i, nsupc ≤ i → i < nsupr → o.lusup[ufirst + i]! =
+       D[lsub[istart + i]!]! - ∑ r ∈ range nsupc, st.lusup[luptr + (r * nsupr + i)]! * u.getD r 0) ∧
+     (∀ p, (p < ufirst ∨ ufirst + nsupr ≤ p) → o.lusup[p]! = st.lusup[p]!) ∧
+     o.dense.size = st.dense.size ∧
+     (∀ t, t < nsupr → o.dense[lsub[istart + t]!]! = 0) ∧
+     (∀ r, (∀ t, t < nsupr → lsub[istart + t]! ≠ r) → o.dense[r]! = D[r]!) ∧
+     o.tempv.size = st.tempv.size ∧ (∀ i : Nat, o.tempv[i]! = st.tempv[i]!) ∧
+     o.xlusup = st.xlusup.setIfInBounds (jcol + 1) (ufirst + nsupr)) := by
+  subst hS
+  obtain ⟨⟨i1, i2, i3, i4, i5⟩, steps⟩ := colSegments_chain cplx segOps jcol nseg fpanelc segrep repfnz xsup supno lsub xlsub st H nseg (Nat.le_refl _)
+  have hc : colBmod cplx segOps jcol nseg fpanelc segrep repfnz xsup supno lsub xlsub st =
+      snodeBmod cplx jcol fsupc lsub xlsub (segsUpTo cplx segOps jcol nseg fpanelc segrep repfnz xsup supno lsub xlsub st nseg) := by
+    unfold colBmod
+    rw [colSegments_eq_segsUpTo, colTail_eq_snodeBmod _ _ _ _ _ _ _ _ (e0 ▸ hp), ← e0]
+  refine ⟨rfl, steps, i3, ?_⟩
+  intro D u o
+  obtain ⟨a1, a2, a3, a4, a5, a6, a7, a8, a9, a10⟩ := snodeBmod_spec cplx jcol fsupc lsub xlsub
+    (segsUpTo cplx segOps jcol nseg fpanelc segrep repfnz xsup supno lsub xlsub st nseg) istart nsupr ufirst luptr nsupc
+    e1 e2 (by rw [i2]; exact e3) (by rw [i2]; exact e4) e5 hle hinj (fun t ht => by rw [i3]; exact hrow t ht)
+    (by rw [i1]; exact hcol) hwid hbefore (by rw [i4]; exact htv) (fun i hi => by rw [i5]; exact htz i hi)
+  rw [← hc, i1] at a1 a2 a3 a4
+  rw [← hc] at a5 a6 a7 a8 a9 a10
+  rw [i2] at a10
+  exact ⟨a1, a2, a3, a4, a5.trans i3, a6, a7, a8.trans i4, fun i => (a9 i).trans (i5 i), a10⟩
+
+/-! Hypotheses are satisfiable: a finished supernode of 5 columns and 7 rows (columns 0..4), the
+current supernode {5, 6} with 3 rows and `jcol = 6`; one listed segment `krep = 4`, `repfnz[4] = 0`
+(segment size 5: the `lsolve` + `matvec` case), `fpanelc = 0`. -/
+def cXsup : Array Nat := #[0, 5, 7]
+def cSupno : Array Nat := #[0, 0, 0, 0, 0, 1, 1]
+def cXlsub : Array Nat := #[0, 7, 7, 7, 7, 7, 10, 10]
+def cLsub : Array Nat := #[3, 1, 4, 0, 6, 2, 5, 2, 5, 0]
+def cXlusup : Array Nat := #[0, 7, 14, 21, 28, 35, 38, 0]
+def cRepfnz : Array Nat := #[0, 0, 0, 0, 0, 0, 0]
+def cSegrep : Array Nat := #[4]
+def cLusup : Array Rat := (Array.range 41).map fun k => ((((k * 5 + 1) % 3 : Nat) : Int) - 1 : Int)
+def cDense : Array Rat := (Array.range 7).map fun k => ((((k * 3 + 2) % 5 : Nat) : Int) - 2 : Int)
+def cSt : SnodeSt Rat := { lusup := cLusup, xlusup := cXlusup, dense := cDense, tempv := Array.replicate 7 0 }
+def cG : Seg := segGeom 0 cXsup cSupno cXlsub cSt.xlusup cRepfnz 4
+
+example : cG = { lptr := 0, luptr := 0, nsupr := 7, nsupc := 5, nrow := 2, segsze := 5, noZeros := 0, cnt := 2 } := by decide +kernel
+example : (colBmod false true 6 1 0 cSegrep cRepfnz cXsup cSupno cLsub cXlsub cSt).lusup.extract 38 41 = #[11, -12, 5] := by decide +kernel
+example : (colBmod true true 6 1 0 cSegrep cRepfnz cXsup cSupno cLsub cXlsub cSt).lusup.extract 38 41 = #[11, -12, 5] := by decide +kernel
+example : (colSegments false true 6 1 0 cSegrep cRepfnz cXsup cSupno cLsub cXlsub cSt).dense = #[-6, -3, 11, -1, 3, -12, -6] := by decide +kernel
+theorem cG_distinct : ∀ t, t < cG.segsze + cG.nrow → ∀ u, u < cG.segsze + cG.nrow →
+    cLsub[cG.lptr + cG.noZeros + t]! = cLsub[cG.lptr + cG.noZeros + u]! → t = u := by decide +kernel
+theorem cG_ok : SegOK cLsub cG cSt.dense :=
+  ⟨by decide +kernel, by decide +kernel, by decide +kernel, fun t u ht hu => cG_distinct t ht u hu, by decide +kernel⟩
+example := colBmod_segment_spec false true 6 0 cXsup cSupno cLsub cXlsub cRepfnz 4 cSt cG rfl (by decide +kernel) cG_ok
+  (fun _ => by decide +kernel) (fun _ => by decide +kernel)
+theorem cTail_distinct : ∀ t, t < 3 → ∀ u, u < 3 → cLsub[7 + t]! = cLsub[7 + u]! → t = u := by decide +kernel
+example := colBmod_spec_partial false true 6 1 0 cSegrep cRepfnz cXsup cSupno cLsub cXlsub cSt _ rfl
+  (fun k hk => by
+    obtain rfl : k = 0 := by omega
+    exact fun _ => ⟨cG_ok, fun _ => ⟨by decide +kernel, by decide +kernel⟩⟩)
+  5 7 3 38 35 1 (by decide +kernel) (by decide) (by decide +kernel) (by decide +kernel) (by decide +kernel) (by decide +kernel)
+  (by decide) (by decide) (fun t u ht hu => cTail_distinct t ht u hu) (by decide +kernel) (by decide +kernel) (by decide)
+  (by decide) (by decide +kernel) (by decide +kernel)
+
+/-- **C01/C02 (one U-segment of `column_bmod` instantiates the "dense solve + gemv" step of the
+supernodal schedule theorem).**  `cols` are the columns `kfnz..krep` of the supernode as the
+factorization model holds them (`(pivot row, column of L)`, e.g. a block of `prev st j` in C02
+`luFactor_supernodal_schedule`), agreeing with the storage on the rows `kfnz..` of the supernode (zero
+above the pivot, one at the pivot, the stored multipliers below).  Then what the iteration — the
+hand-written cases for sizes 1, 2, 3 or mirrored `lsolve` + `matvec` — leaves in `dense` is the abstract
+block update `Slu.LU.snodeBlock cols dense` (= `elimBlocks [cols] dense` = the column-by-column
+elimination `elim cols dense`): its U-segment at the pivot rows (where `column_bmod` parks it until
+`copy_to_ucol`), its remaining vector at the rows below. -/
+theorem colBmod_segment_is_supernodal_step (cplx segOps : Bool) (jcol fpanelc : Nat)
+    (xsup supno lsub xlsub repfnz : Array Nat) (krep : Nat) (st : SnodeSt K) (g : Seg)
+    (hg : g = segGeom fpanelc xsup supno xlsub st.xlusup repfnz krep)
+    (hne : supno[jcol]! ≠ supno[krep]!) (ok : SegOK lsub g st.dense)
+    (htv : 4 ≤ g.segsze → g.segsze + g.nrow ≤ st.tempv.size)
+    (htz : 4 ≤ g.segsze → ∀ i, i < g.segsze + g.nrow → st.tempv[i]! = 0)
+    (cols : List (Nat × LU.Vec K)) (hlen : cols.length = g.segsze)
+    (R1 : ∀ t (ht : t < cols.length), (cols[t]).1 = lsub[g.lptr + g.noZeros + t]!)
+    (R2 : ∀ t (ht : t < cols.length) i, i < g.segsze + g.nrow → (cols[t]).2.get (lsub[g.lptr + g.noZeros + i]!) =
+        if i < t then 0 else if i = t then 1
+        else st.lusup[g.luptr + (g.nsupr * g.noZeros + g.noZeros) + (t * g.nsupr + i)]!) :
+    LU.snodeBlock cols st.dense = LU.elim cols st.dense ∧
+    LU.elimBlocks [cols] st.dense = LU.elim cols st.dense ∧
+    (∀ s, s < g.segsze →
+      (colSegment cplx segOps jcol fpanelc xsup supno lsub xlsub repfnz krep st).dense[lsub[g.lptr + g.noZeros + s]!]! =
+        (LU.snodeBlock cols st.dense).2.getD s 0) ∧
+    (∀ i, i < g.nrow →
+      (colSegment cplx segOps jcol fpanelc xsup supno lsub xlsub repfnz krep st).dense[lsub[g.lptr + g.noZeros + (g.segsze + i)]!]! =
+        (LU.snodeBlock cols st.dense).1.get (lsub[g.lptr + g.noZeros + (g.segsze + i)]!)) := by
+  obtain ⟨hU, hr, c1, c2⟩ := segUpdate_eq_snodeBlock' cplx lsub g st.lusup st.dense st.tempv ok htv htz cols hlen R1 R2
+  have hd : (colSegment cplx segOps jcol fpanelc xsup supno lsub xlsub repfnz krep st).dense =
+      (segUpdate cplx lsub g st.lusup st.dense st.tempv).1 := by
+    unfold colSegment; rw [if_pos hne, ← hg]
+  have hb := LU.snodeBlock_eq_elim cols st.dense hU hr
+  have hs := LU.snodeSolve_eq_elim cols st.dense hr
+  refine ⟨hb, ?_, fun t ht => ?_, fun i hi => ?_⟩
+  · have := LU.elimBlocks_eq_elim [cols] st.dense (fun b hb' => by simp at hb'; subst hb'; exact hU)
+      (fun b hb' x hx => by simp at hb'; subst hb'; exact hr x hx)
+    simpa using this
+  · rw [hd, c1 t ht, hb, hs]
+  · rw [hd, c2 i hi, hb, hs, LU.snodeGemv_eq_elim]
+
+/-! the model's columns for the example segment (`cG`: columns 0..4 of the first supernode, 7 rows) -/
+def cCols : List (Nat × LU.Vec Rat) := (List.range 5).map fun t =>
+  (cLsub[t]!, (Array.range 7).map fun r =>
+    match (List.range 7).find? (fun i => cLsub[i]! == r) with
+    | some i => if i < t then 0 else if i = t then 1 else cLusup[t * 7 + i]!
+    | none => 0)
+theorem cCols_R1 : ∀ t (ht : t < cCols.length), (cCols[t]).1 = cLsub[cG.lptr + cG.noZeros + t]! := by decide +kernel
+theorem cCols_R2 : ∀ t (ht : t < cCols.length) i, i < cG.segsze + cG.nrow → (cCols[t]).2.get (cLsub[cG.lptr + cG.noZeros + i]!) =
+    if i < t then 0 else if i = t then 1
+    else cSt.lusup[cG.luptr + (cG.nsupr * cG.noZeros + cG.noZeros) + (t * cG.nsupr + i)]! := by decide +kernel
+example := colBmod_segment_is_supernodal_step false true 6 0 cXsup cSupno cLsub cXlsub cRepfnz 4 cSt cG rfl (by decide +kernel) cG_ok
+  (fun _ => by decide +kernel) (fun _ => by decide +kernel) cCols (by decide +kernel) cCols_R1 cCols_R2
+
+/-- **C01 (`column_bmod` as a whole, EVERY `fpanelc`).**  As `colBmod_spec_partial`, without the
+restriction `fpanelc ≤ fsupc`: `fstCol = max(fsupc, fpanelc)`, `d = fstCol − fsupc` (`d_fsupc`), the
+in-supernode update uses the columns `fstCol..jcol-1` (`nsupc` of them; `luptr = xlusup[fstCol] + d`
+addresses the diagonal cell of column `fstCol`).  With `D` the `dense` left by the segment loop
+(`S nseg`, each iteration a `SegStep` from its predecessor's state) column `jcol` of `lusup` holds:
+`D` itself on the first `d` rows (they were updated through the segment loop / `panel_bmod`), the
+forward substitution `u` with the unit lower block of columns `fstCol..jcol-1` on the next `nsupc`
+rows, and `D[row] − Σ_r L(row, r)·u_r` below; nothing else in `lusup` changed; `dense` is zero on the
+supernode's rows and `D` elsewhere; `tempv` as before (zero); `xlusup[jcol+1]` set. -/
+theorem colBmod_spec (cplx segOps : Bool) (jcol nseg fpanelc : Nat) (segrep repfnz xsup supno lsub xlsub : Array Nat)
+    (st : SnodeSt K) (S : Nat → SnodeSt K)
+    (hS : S = segsUpTo cplx segOps jcol nseg fpanelc segrep repfnz xsup supno lsub xlsub st)
+    (H : ∀ k, k < nseg → SegHyp jcol fpanelc xsup supno lsub xlsub repfnz segrep[nseg - 1 - k]! st)
+    (fsupc fstCol d istart nsupr ucol luptr nsupc : Nat)
+    (e0 : fsupc = xsup[supno[jcol]!]!) (ef : fstCol = max fsupc fpanelc) (ed : d = fstCol - fsupc)
+    (e1 : istart = xlsub[fsupc]!) (e2 : nsupr = xlsub[fsupc + 1]! - istart)
+    (e3 : ucol = st.xlusup[jcol]!) (e4 : luptr = st.xlusup[fstCol]! + d) (e5 : nsupc = jcol - fstCol)
+    (hle : fstCol ≤ jcol)
+    (hinj : ∀ t u, t < nsupr → u < nsupr → lsub[istart + t]! = lsub[istart + u]! → t = u)
+    (hrow : ∀ t, t < nsupr → lsub[istart + t]! < st.dense.size)
+    (hcol : ucol + nsupr ≤ st.lusup.size) (hwid : d + nsupc ≤ nsupr)
+    (hbefore : luptr + nsupc * nsupr ≤ ucol + d)
+    (htv : nsupr - d - nsupc ≤ st.tempv.size) (htz : ∀ i, i < nsupr - d - nsupc → st.tempv[i]! = 0) :
+    S 0 = st ∧
+    (∀ k, k < nseg → SegStep jcol fpanelc xsup supno lsub xlsub repfnz segrep[nseg - 1 - k]! (S k) (S (k + 1))) ∧
+    (S nseg).dense.size = st.dense.size ∧
+    (let D := (S nseg).dense
+     let u := fwdSub (fun i r => st.lusup[luptr + (r * nsupr + i)]!) (fun _ => 1) (fun t => D[lsub[istart + (d + t)]!]!) nsupc
+     let o := colBmod cplx segOps jcol nseg fpanelc segrep repfnz xsup supno lsub xlsub st
+     o.lusup.size = st.lusup.size ∧
+     (∀ t, t < d → o.lusup[ucol + t]! = D[lsub[istart + t]!]!) ∧
+     (∀ t, t < nsupc → o.lusup[ucol + (d + t)]! = u.getD t 0) ∧
+     (∀ i, d + nsupc ≤ i → i < nsupr → o.lusup[ucol + i]! =
+       D[lsub[istart + i]!]! - ∑ r ∈ range nsupc, st.lusup[luptr + (r * nsupr + (i - d))]! * u.getD r 0) ∧
+     (∀ p, (p < ucol ∨ ucol + nsupr ≤ p) → o.lusup[p]! = st.lusup[p]!) ∧
+     o.dense.size = st.dense.size ∧
+     (∀ t, t < nsupr → o.dense[lsub[istart + t]!]! = 0) ∧
+     (∀ r, (∀ t, t < nsupr → lsub[istart + t]! ≠ r) → o.dense[r]! = D[r]!) ∧
+     o.tempv.size = st.tempv.size ∧ (∀ i : Nat, o.tempv[i]! = st.tempv[i]!) ∧
+     o.xlusup = st.xlusup.setIfInBounds (jcol + 1) (ucol + nsupr)) := by
+  subst hS
+  obtain ⟨⟨i1, i2, i3, i4, i5⟩, steps⟩ := colSegments_chain cplx segOps jcol nseg fpanelc segrep repfnz xsup supno lsub xlsub st H nseg (Nat.le_refl _)
+  refine ⟨rfl, steps, i3, ?_⟩
+  intro D u o
+  have hz : ∀ i, i < nsupc → (fun t => u.getD t 0) i = D[lsub[istart + (d + i)]!]! -
+      ∑ j ∈ range i, (fun t => u.getD t 0) j *
+        (segsUpTo cplx segOps jcol nseg fpanelc segrep repfnz xsup supno lsub xlsub st nseg).lusup[luptr + (j * nsupr + i)]! := by
+    intro i hi
+    rw [i1]
+    show u.getD i 0 = _
+    rw [fwd_rec _ _ _ nsupc i hi, div_one]
+    congr 1
+    exact Finset.sum_congr rfl (fun j _ => mul_comm _ _)
+  obtain ⟨a1, a2, a3, a4, a5, a6, a7, a8, a9, a10, a11⟩ := colTail_spec' cplx jcol fpanelc xsup supno lsub xlsub
+    (segsUpTo cplx segOps jcol nseg fpanelc segrep repfnz xsup supno lsub xlsub st nseg)
+    fsupc fstCol d istart nsupr ucol luptr nsupc e0 ef ed e1 e2 (by rw [i2]; exact e3) (by rw [i2]; exact e4) e5 hle hinj
+    (fun t ht => by rw [i3]; exact hrow t ht) (by rw [i1]; exact hcol) hwid hbefore (by rw [i4]; exact htv)
+    (fun i hi => by rw [i5]; exact htz i hi) (fun t => u.getD t 0) hz
+  rw [i1] at a1 a4 a5
+  rw [i2] at a11
+  exact ⟨a1, a2, a3, a4, a5, a6.trans i3, a7, a8, a9.trans i4, fun i => (a10 i).trans (i5 i), a11⟩
+
+/-! `colBmod_spec` on the example above (`fstCol = 5`, `d = 0`, `ucol = 38`, `luptr = 35`, `nsupc = 1`) -/
+example := colBmod_spec false true 6 1 0 cSegrep cRepfnz cXsup cSupno cLsub cXlsub cSt _ rfl
+  (fun k hk => by
+    obtain rfl : k = 0 := by omega
+    exact fun _ => ⟨cG_ok, fun _ => ⟨by decide +kernel, by decide +kernel⟩⟩)
+  5 5 0 7 3 38 35 1 (by decide +kernel) (by decide +kernel) (by decide) (by decide +kernel) (by decide +kernel)
+  (by decide +kernel) (by decide +kernel) (by decide) (by decide) (fun t u ht hu => cTail_distinct t ht u hu)
+  (by decide +kernel) (by decide +kernel) (by decide) (by decide) (by decide +kernel) (by decide +kernel)
+
+/-! and with the panel starting INSIDE the column's supernode: the first supernode (columns 0..4, 7
+rows) taken as the current one, `jcol = 4`, `fpanelc = 2`: `fstCol = 2`, `d = 2`, `nsupc = 2`,
+`ucol = 28`, `luptr = xlusup[2] + 2 = 16`, no listed segment -/
+example : (colBmod false true 4 0 2 #[] cRepfnz cXsup cSupno cLsub cXlsub cSt).lusup.extract 28 35 = #[-1, -2, 2, -2, -4, 5, -2] := by
+  decide +kernel
+example : (colBmod true true 4 0 2 #[] cRepfnz cXsup cSupno cLsub cXlsub cSt).lusup.extract 28 35 = #[-1, -2, 2, -2, -4, 5, -2] := by
+  decide +kernel
+theorem cHead_distinct : ∀ t, t < 7 → ∀ u, u < 7 → cLsub[0 + t]! = cLsub[0 + u]! → t = u := by decide +kernel
+example := colBmod_spec false true 4 0 2 #[] cRepfnz cXsup cSupno cLsub cXlsub cSt _ rfl
+  (fun k hk => absurd hk (by omega))
+  0 2 2 0 7 28 16 2 (by decide +kernel) (by decide +kernel) (by decide) (by decide +kernel) (by decide +kernel)
+  (by decide +kernel) (by decide +kernel) (by decide) (by decide) (fun t u ht hu => cHead_distinct t ht u hu)
+  (by decide +kernel) (by decide +kernel) (by decide) (by decide) (by decide +kernel) (by decide +kernel)
+
+end Slu.ColBmod
